@@ -78,7 +78,7 @@ def gen_times(rng, kind, n):
     span_s = rng.choice([0.001, 0.008, 0.05, 1, 60, 3600, 86400, 7 * 86400, 30 * 86400, 365 * 86400, 20 * 365 * 86400, 300 * 365 * 86400])
     anchor = rng.choice([
         dt.datetime(rng.randrange(1905, 2100), rng.randrange(1, 13), rng.randrange(1, 29), rng.randrange(24), rng.randrange(60), rng.randrange(60)),
-        dt.datetime(2020, 2, 27, 22), dt.datetime(1999, 12, 30, 12), dt.datetime(2021, 1, 29, 6), dt.datetime(2021, 3, 30), dt.datetime(2024, 2, 28, 23, 59),
+        dt.datetime(2020, 2, 27, 22), dt.datetime(1999, 12, 30, 12), dt.datetime(1970, 1, 1), dt.datetime(1969, 12, 31, 23, 59, 59), dt.datetime(2021, 1, 29, 6), dt.datetime(2021, 3, 30), dt.datetime(2024, 2, 28, 23, 59),
     ])
     if kind == "date":
         days = max(1, int(span_s / 86400)) if span_s >= 86400 else rng.choice([1, 3, 10])
@@ -99,6 +99,8 @@ def gen_times(rng, kind, n):
             out.append(t)
     if len(out) > 1 and rng.random() < 0.2:
         out[1] = out[0]  # a tie
+    if rng.random() < 0.15:
+        out[-1] = anchor  # a datum exactly on the anchor (the epoch, a month end, ...)
     return out
 
 
@@ -171,6 +173,10 @@ def gen_spec(rng, scale_kind=None, n=None, direction=None, c08=False, text_class
         opts["labella"] = lab
     if rng.random() < 0.25:
         opts["showTicks"] = False
+    if rng.random() < 0.15:
+        opts["dotRadius"] = rng.choice([0, 1, 1.5, 5, 2.25])
+    if rng.random() < 0.05:
+        opts["textXOffset"], opts["textYOffset"] = rng.choice([("0em", "1em"), ("2px", "11px")])
     if rng.random() < 0.35:
         opts["showBorder"] = True
         if rng.random() < 0.6:
